@@ -90,6 +90,18 @@ def check_message(H, m, suffix, ctx):
                       dict(msg=m, suffix=suffix[:64], parsed=repr(parsed)[:300], rest=bytes(rest)[:64]),
                       dict(kind="msg", msg=m, suffix=suffix))
         ok = False
+    # the decoded message is a message like any other: it encodes to the same layout (also when it was decoded from a
+    # buffer that continued behind it)
+    try:
+        again = bytes(parsed.build())
+    except Exception as exc:  # noqa: B902
+        again = repr(exc)
+    ctx.count("decoded_message_encoded_again")
+    if again != ref:
+        ctx.violation("decoded-message-encodes-differently", dict(msg=dict(m, payload=m["payload"][:32]), suffix_len=len(suffix),
+                                                                  got=again[:64] if isinstance(again, bytes) else again, reference=ref[:64]),
+                      dict(kind="msg", msg=m, suffix=suffix))
+        ok = False
     # the reference decoder must read the library's bytes the same way
     rm, rrest = refwire.decode_someip(bytes(built) + suffix)
     if rm != dict(m, pv=1) or rrest != suffix:
